@@ -66,7 +66,7 @@ func shutdownScenario(t *rapid.T, pool []string) sim.Scenario {
 				step = sim.Step{Op: "release", K: k, Out: pick(t, "outcome", []string{"ok", "err:-32000", "ctxerr"})}
 			case roll < 33:
 				pushes++
-				step = sim.Step{Op: "push", Push: pick(t, "pushkind", []string{"notify", "callback"}), K: pushes, D: pick(t, "deadline", []int{0, 0, 5000, -1})}
+				step = sim.Step{Op: "push", Push: pick(t, "pushkind", []string{"notify", "callback"}), K: pushes, D: pick(t, "deadline", []int{0, 0, 5000, -1, -2})}
 			case roll < 38 && len(st.LiveIDs) > 0:
 				step = sim.Step{Op: "cancel", ID: pick(t, "cancelid", st.LiveIDs)}
 			case roll < 46 && sc.Cfg.AllowPush:
